@@ -83,6 +83,30 @@ def trajectory(env, np_seed, plan_seed, n_steps):
     return m.hexdigest()[:20]
 
 
+def continue_trajectory(env, np_seed, plan_seed, n_steps):
+    """Seeded continuation of the episode the environment is in (no reset
+    first)."""
+    import numpy as np
+    np.random.seed(np_seed)
+    rng = random.Random(plan_seed)
+    m = hashlib.sha256()
+    flat = env.flat_actions
+    nvec = None if flat else [int(v) for v in env.action_space.nvec]
+    for _ in range(n_steps):
+        if flat:
+            a = rng.randrange(env.action_space.n)
+        else:
+            a = [rng.randrange(v) for v in nvec]
+        obs, r, term, trunc, info = env.step(a)
+        m.update(np.asarray(obs).tobytes())
+        m.update(repr((float(r).hex(), bool(term), bool(trunc),
+                       canon(info))).encode())
+        if term or trunc:
+            obs, _ = env.reset()
+            m.update(np.asarray(obs).tobytes())
+    return m.hexdigest()[:20]
+
+
 def planner_trajectory(env, np_seed, plan_seed, n_steps):
     """Look-ahead from a kept checkpoint: a chain of generative steps that
     starts at the state object the environment holds after reset.  Every
@@ -112,6 +136,17 @@ def planner_trajectory(env, np_seed, plan_seed, n_steps):
                 np.asarray(obs.tensor).tobytes(),
                 repr((float(r).hex(), bool(done), canon(info))))
     for i, a in enumerate(acts):
+        if i % 2 == 1:
+            # the planner first evaluated this (state, action) under another
+            # seed; the seeded evaluation that follows must not depend on it
+            np.random.seed((np_seed + i + 7919) % (2 ** 32))
+            env.generative_step(state, a)
+            np.random.seed((np_seed + i) % (2 ** 32))
+            d_here = dig(env.generative_step(state, a))
+            np.random.seed((np_seed + i) % (2 ** 32))
+            d_copy = dig(env.generative_step(state.copy(), a))
+            if d_here != d_copy:
+                return "SEEDED-EVALUATION-DEPENDS-ON-EARLIER-ONE-AT-STEP-%d" % i
         np.random.seed((np_seed + i) % (2 ** 32))
         r1 = env.generative_step(state, a)
         d1 = dig(r1)
@@ -206,6 +241,31 @@ def run_job(job):
             out.append(trajectory(env2, job["np_seed"], job["plan_seed"],
                                   job["steps"]))
         if len(set(out)) == 1:
+            # mid-episode copies: play part of an episode, copy the
+            # environment (deep copy and pickle round trip), and continue
+            # original and copies with the same seeds
+            import copy
+            import pickle
+            env.reset()
+            half = max(3, job["steps"] // 4)
+            continue_trajectory(env, job["np_seed"] + 1, job["plan_seed"] + 1,
+                                half)
+            try:
+                c1 = copy.deepcopy(env)
+                try:
+                    c2 = pickle.loads(pickle.dumps(env))
+                except Exception:
+                    c2 = copy.deepcopy(env)
+            except Exception as e:
+                out.append("EXC:midcopy:" + type(e).__name__)
+                return out
+            cont = [continue_trajectory(e, job["np_seed"] + 2,
+                                        job["plan_seed"] + 2, job["steps"])
+                    for e in (env, c1, c2)]
+            if len(set(cont)) != 1:
+                out.append("MID-EPISODE-COPY-DIFFERS:" + "/".join(cont))
+                return out
+        if len(set(out)) == 1:
             # planner-style use: the same seeded look-ahead replayed twice
             # from one kept checkpoint (digests are only compared with each
             # other, so they get their own prefix)
@@ -215,7 +275,8 @@ def run_job(job):
                                    job["steps"])
             b = planner_trajectory(env, job["np_seed"], job["plan_seed"],
                                    job["steps"])
-            if a != b or a.startswith("REPEAT-DIFFERS"):
+            if a != b or a.startswith(("REPEAT-DIFFERS",
+                                       "SEEDED-EVALUATION")):
                 out.append("PLANNER-REPLAY-DIFFERS:" + a + "/" + b)
         return out
     raise ValueError(kind)
